@@ -625,3 +625,34 @@ Proof. unfold split_message. cbn [existsb negb]. induction attrs as [|a l IH]; [
 
 Lemma split_message_NoDup attrs removed : NoDup attrs -> NoDup (split_message attrs removed).
 Proof. apply NoDup_filter. Qed.
+
+(* -------------------------------------------------------- request metadata *)
+Lemma md_get_append m key vs k :
+  md_get (md_append m key vs) k = if str_eqb k key then md_get m k ++ vs else md_get m k.
+Proof.
+  induction m as [|[k' vs'] m IH]; cbn [md_append md_get].
+  - destruct (str_eqb k key); reflexivity.
+  - destruct (str_eqb key k') eqn:E1; cbn [md_get].
+    + apply str_eqb_eq in E1. subst k'. destruct (str_eqb k key); reflexivity.
+    + destruct (str_eqb k k') eqn:E2.
+      * apply str_eqb_eq in E2. subst k'. destruct (str_eqb k key) eqn:E3; [|reflexivity].
+        apply str_eqb_eq in E3. subst. rewrite str_eqb_refl in E1. discriminate.
+      * apply IH.
+Qed.
+
+Definition written_for (k : str) (written : list (str * list str)) : list str :=
+  flat_map (fun kv => if str_eqb k (fst kv) then snd kv else []) written.
+
+Lemma md_get_write written : forall caller k,
+  md_get (md_write caller written) k = md_get caller k ++ written_for k written.
+Proof.
+  unfold md_write. induction written as [|[key vs] w IH]; intros caller k; cbn [fold_left written_for flat_map fst snd].
+  - now rewrite app_nil_r.
+  - rewrite IH, md_get_append. fold (written_for k w). destruct (str_eqb k key); [now rewrite app_assoc|reflexivity].
+Qed.
+
+Lemma endpoint_after_decode d e : In SEndpoint (handle_trace d e) -> d = true.
+Proof. destruct d; [reflexivity|]. cbn. intros [H|[]]. discriminate. Qed.
+
+Lemma encode_after_endpoint d e : In SEncode (handle_trace d e) -> d = true /\ e = true.
+Proof. destruct d, e; cbn; intuition discriminate. Qed.
